@@ -218,6 +218,11 @@ def check(prop, tier, seed):
         cev, cpath = simple.run_lab('call', cstims, tag, 'calls', annotate=decomp.annotate)
         simple.validate(prop, 'Trace_Call', verdict, cev, cpath, 'calls', cov, clause_filter=p_call.clause_filter('C03'), harness_clauses=p_call.HARNESS)
         cov['samples'].append({'family': 'calls', 'stimulus': simple.sample_of(cstims)})
+        # ... on calls whose own metadata carries protocol headers (grpc-encoding, grpc-accept-encoding) over the client's compression grid
+        nstims = p_call.client_negotiation_stims(seed, tier)
+        nev, npath = simple.run_lab('call', nstims, tag, 'client_negotiation', annotate=decomp.annotate)
+        simple.validate(prop, 'Trace_Call', verdict, nev, npath, 'client_negotiation', cov, clause_filter=p_call.clause_filter('C03'), harness_clauses=p_call.HARNESS)
+        cov['samples'].append({'family': 'client_negotiation', 'stimulus': simple.sample_of(nstims)})
         # ... and on the wire of the complete transport server, where a response may also be synthesised for a call that failed in a layer
         wstims = p_call.wire_stims(seed, tier)
         wev, wpath = simple.run_lab('call', wstims, tag, 'wire_responses', annotate=decomp.annotate)
